@@ -17,6 +17,7 @@ import (
 	"encoding/json"
 	"fmt"
 	"math/big"
+	"sort"
 	"strings"
 
 	"github.com/dolthub/go-mysql-server/sql"
@@ -42,8 +43,9 @@ var sqlCtx = sql.NewEmptyContext()
 
 // ---------------------------------------------------------------- known-finding keys
 
-// classify gives the stable key of a violating input: the three defect shapes found while
-// building this check get their own key, everything else a generic one.
+// classify gives the stable key of a violating input: the defect shapes recorded as known findings
+// get their own key, everything else a generic one (YEAR 0000 and long JSON keys were repaired in
+// /repo — e60c6b5, 22b8e06 — and are ordinary cases again: a regression is a plain violation).
 func classify(t *tspec, c *cell) string {
 	switch t.Fam {
 	case "time":
@@ -53,10 +55,6 @@ func classify(t *tspec, c *cell) string {
 			if a%1000000 != 0 && (a/1000000)%60 == 59 {
 				return "time2-negative-fraction-seconds-59"
 			}
-		}
-	case "year":
-		if c.I.Sign() == 0 {
-			return "year-zero"
 		}
 	case "date", "datetime":
 		if c.F[0] <= 0 {
@@ -234,6 +232,31 @@ func runJSON(e *hx.Env, m *hx.Model, k kase) {
 		e.Rep.Hit("oracle-mismatch:" + key)
 		e.Rep.Violate(key, fmt.Sprintf("JSON %s: %s (consumed %d/%d)", clip(k.Doc), dec, n, len(data)), k)
 	}
+	if obj, ok := doc.(map[string]any); ok && len(data) > 5 && len(obj) > 0 {
+		// key-entry section of the top-level object against the model's jsonKeyEntries
+		body := data[5:]
+		large := data[4] == 1
+		w, lg := 2, "0"
+		if large {
+			w, lg = 4, "1"
+		}
+		keys := make([]string, 0, len(obj))
+		for kk := range obj {
+			keys = append(keys, kk)
+		}
+		sort.Strings(keys)
+		req := "jkeys " + lg
+		for _, kk := range keys {
+			req += " " + hx.Hex([]byte(kk))
+		}
+		lo, hi := 2*w, 2*w+len(keys)*(w+2)
+		if hi <= len(body) {
+			e.Rep.Hit("json:key-entries-compared")
+			if got, want := "ok "+hx.Hex(body[lo:hi]), m.Ask(req); got != want {
+				e.Rep.Disagree(k, clip(got), clip(want), "json object key entries")
+			}
+		}
+	}
 	if len(data) >= 4 {
 		mod := m.Ask("enc json b:" + hx.Hex(data[4:]))
 		if mod != impl {
@@ -270,18 +293,15 @@ func jsonDeclaredSize(body []byte) string {
 	return "ok"
 }
 
-// classifyJSON: documents with an object key of 256+ bytes, or with an array/object member whose
-// encoding exceeds 64KiB, hit the two JSON defects recorded in design/C40.md.
+// classifyJSON: documents with an array/object member whose encoding exceeds 64KiB hit the JSON
+// defect recorded in design/C40.md (known finding json-member-over-64k).
 func classifyJSON(doc any) string {
 	key := "cell-json"
 	var walk func(v any)
 	walk = func(v any) {
 		switch x := v.(type) {
 		case map[string]any:
-			for k, w := range x {
-				if len(k) >= 256 {
-					key = "json-object-key-256"
-				}
+			for _, w := range x {
 				if s, ok := w.(string); ok && len(s) > 65000 && key == "cell-json" {
 					key = "json-member-over-64k"
 				}
